@@ -173,6 +173,37 @@ func c17CheckAlphabet(r *obs.Run, name string, a alphabet.Alphabet, def string, 
 				first = i
 			}
 		}
+		// two times in three the slice is a window of a longer one, with an invalid letter right before and right behind it
+		// (nothing outside the window counts), and nil now and then for the empty one; the caller's letters stay as they are
+		var big []alphabet.Letter
+		var qbig []alphabet.QLetter
+		if r.Rng.Intn(3) != 0 {
+			lo, behind := 1+r.Rng.Intn(9), 1+r.Rng.Intn(17)
+			big = make([]alphabet.Letter, lo+len(ls)+behind)
+			qbig = make([]alphabet.QLetter, len(big))
+			for i := range big {
+				big[i] = alphabet.Letter(r.Rng.Intn(256))
+				if len(def) > 0 && r.Rng.Intn(2) == 0 {
+					big[i] = alphabet.Letter(def[r.Rng.Intn(len(def))])
+				}
+				qbig[i] = alphabet.QLetter{L: big[i], Q: alphabet.Qphred(r.Rng.Intn(256))}
+			}
+			big[lo-1], big[lo+len(ls)] = 0xfe, 0xfe
+			qbig[lo-1].L, qbig[lo+len(ls)].L = 0xfe, 0xfe
+			copy(big[lo:], ls)
+			copy(qbig[lo:], qls)
+			for i := range ls {
+				qbig[lo+i].Q = alphabet.Qphred(r.Rng.Intn(256))
+			}
+			ls, qls = big[lo:lo+len(ls)], qbig[lo:lo+len(ls)]
+			r.Count("allvalid_windows_of_longer_slices", 2)
+		} else if len(ls) == 0 && r.Rng.Intn(2) == 0 {
+			ls, qls = nil, nil
+			r.Count("allvalid_nil_slices", 2)
+		} else {
+			big, qbig = ls, qls
+		}
+		keep, qkeep := append([]alphabet.Letter(nil), big...), append([]alphabet.QLetter(nil), qbig...)
 		ok, pos := a.AllValid(ls)
 		if ok != (first < 0) || pos != first {
 			r.Violate("alphabet-allvalid", fmt.Sprintf("%s AllValid(%v)=(%v,%d) want first invalid %d", name, ls, ok, pos, first), c17w{name, def, ls, "AllValid"})
@@ -181,6 +212,13 @@ func c17CheckAlphabet(r *obs.Run, name string, a alphabet.Alphabet, def string, 
 		if ok != (first < 0) || pos != first {
 			r.Violate("alphabet-allvalid", fmt.Sprintf("%s AllValidQLetter(%v)=(%v,%d) want first invalid %d", name, ls, ok, pos, first), c17w{name, def, ls, "AllValidQLetter"})
 		}
+		for i := range keep {
+			if big[i] != keep[i] || qbig[i] != qkeep[i] {
+				r.Violate("alphabet-allvalid-input", fmt.Sprintf("%s AllValid/AllValidQLetter changed the caller's letters: element %d of the backing slice was %v/%v, is %v/%v", name, i, keep[i], qkeep[i], big[i], qbig[i]), c17w{name, def, keep, "AllValid input"})
+				break
+			}
+		}
+		r.Count("allvalid_inputs_compared_afterwards", 2)
 		r.Count("allvalid_slices", 2)
 	}
 }
@@ -287,6 +325,28 @@ func c17Case(r *obs.Run, i int) {
 				r.Violate("alphabet-gap", b.name+" gap is not '-'", c17w{b.name, nil, nil, "gap"})
 			}
 		}
+		// the library's own users of the built-ins' tables (RevComp, the aligners, the k-mer index, complexity) have
+		// their turn; the built-ins must answer exactly as before and pass every check again
+		snaps := make([]*c17snap, len(c17Builtins))
+		for k, b := range c17Builtins {
+			snaps[k] = c17Snapshot(b.a, nil)
+		}
+		c17UseBuiltins(r)
+		for k, b := range c17Builtins {
+			if d := snaps[k].diff(c17Snapshot(b.a, nil)); d != "" {
+				r.Violate("builtin-changed", fmt.Sprintf("%s answers differently after sequences, aligners, k-mer index and complexity measures have used it: %s", b.name, d), c17w{b.name, nil, nil, "changed by use: " + d})
+			}
+			again := b.name + " (after use by the library)"
+			c17CheckAlphabet(r, again, b.a, b.def, false)
+			if c, ok := b.a.(alphabet.Complementor); ok {
+				var paired [256]bool
+				for k := 0; k < len(b.pairS); k++ {
+					paired[b.pairS[k]] = true
+				}
+				c17CheckComplement(r, again, c, &paired, b.four)
+			}
+			r.Count("builtin_letters_rechecked_after_use", 256)
+		}
 		r.Sample(map[string]interface{}{"builtin": "DNA", "IndexOf('g')": alphabet.DNA.IndexOf('g'), "IndexOf('G')": alphabet.DNA.IndexOf('G'), "Letter(2)": string([]byte{byte(alphabet.DNA.Letter(2))}), "IndexOf('n')": alphabet.DNA.IndexOf('n')})
 		return
 	}
@@ -321,6 +381,9 @@ func c17Case(r *obs.Run, i int) {
 	rng.Shuffle(len(pool), func(a, b int) { pool[a], pool[b] = pool[b], pool[a] })
 	var def []byte
 	seen := map[string]bool{}
+	if class < 7 && rng.Intn(150) == 0 { // the empty definition: no letter is valid (a constructor may also refuse it)
+		n, pool = 0, nil
+	}
 	for _, c := range pool {
 		key := string([]byte{c})
 		if !cased {
@@ -341,9 +404,16 @@ func c17Case(r *obs.Run, i int) {
 		w = c17w{"generated", string(def), nil, fmt.Sprintf("NewAlphabet cased=%v", cased)}
 		a, err := alphabet.NewAlphabet(string(def), feat.Undefined, gap, amb, cased)
 		r.Note("alpha/"+fmt.Sprint(cased)+"/"+string(def), len(def) >= 2)
+		if err != nil && len(def) == 0 {
+			r.Count("empty_definitions_refused", 1)
+			return
+		}
 		if err != nil {
 			r.Violate("constructor-rejects-valid", fmt.Sprintf("NewAlphabet(%q) error: %v", def, err), w)
 			return
+		}
+		if len(def) == 0 {
+			r.Count("empty_definitions_built", 1)
 		}
 		r.Count("valid_alphabets", 1)
 		c17CheckAlphabet(r, fmt.Sprintf("gen(%q,cased=%v)", def, cased), a, string(def), cased)
@@ -404,14 +474,25 @@ func c17Case(r *obs.Run, i int) {
 		w = c17w{"generated-complementor", map[string]string{"letters": string(def), "pair_s": string(s), "pair_c": string(c)}, nil, fmt.Sprintf("NewComplementor cased=%v", cased)}
 		r.Note("comp/"+fmt.Sprint(cased)+"/"+string(def)+"/"+string(s)+"/"+string(c), len(def) >= 2)
 		p, err := alphabet.NewPairing(string(s), string(c))
+		if err != nil && len(def) == 0 {
+			r.Count("empty_definitions_refused", 1)
+			return
+		}
 		if err != nil {
 			r.Violate("constructor-rejects-valid", fmt.Sprintf("NewPairing(%q,%q) error: %v", s, c, err), w)
 			return
 		}
 		comp, err := alphabet.NewComplementor(string(def), feat.DNA, p, gap, amb, cased)
+		if err != nil && len(def) == 0 {
+			r.Count("empty_definitions_refused", 1)
+			return
+		}
 		if err != nil {
 			r.Violate("constructor-rejects-valid", fmt.Sprintf("NewComplementor(%q) error: %v", def, err), w)
 			return
+		}
+		if len(def) == 0 {
+			r.Count("empty_definitions_built", 1)
 		}
 		r.Count("valid_complementors", 1)
 		name := fmt.Sprintf("gencomp(%q,%q,%q,cased=%v)", def, s, c, cased)
@@ -421,6 +502,10 @@ func c17Case(r *obs.Run, i int) {
 			paired[x] = true
 		}
 		c17CheckComplement(r, name, comp, &paired, false)
+		c17CheckImages(r, name, comp, s, c)
+		if rng.Intn(6) == 0 {
+			c17SharedPairing(r, name, comp, p, def, s, c, cased, gap, amb, &paired)
+		}
 		if r.WantSample() && i < 40 {
 			r.Sample(map[string]interface{}{"class": "valid complementor", "letters": string(def), "pair_s": string(s), "pair_c": string(c), "cased": cased})
 		}
@@ -428,7 +513,8 @@ func c17Case(r *obs.Run, i int) {
 		kind := rng.Intn(7)
 		// non-ASCII runes incl. ones whose low byte is below 0x80 (U+0100, U+0141, U+4E16, U+1D11E) and invalid UTF-8
 		// and the runes that case folding maps onto ASCII letters (U+212A Kelvin -> k, U+0130 -> i, U+017F -> S, U+0131 -> I)
-		junk := []string{"\xff", "é", "\xc3", "λ", "\x80", "日", "\xed\xa0\x80", "ÿ", "Ā", "Ł", "世", "𝄞", "ŉa", "\u0100", "\u212a", "\u0130", "\u017f", "\u0131", "\u212b"}[rng.Intn(19)]
+		junk := []string{"\xff", "é", "\xc3", "λ", "\x80", "日", "\xed\xa0\x80", "ÿ", "Ā", "Ł", "世", "𝄞", "ŉa", "\u0100", "\u212a", "\u0130", "\u017f", "\u0131", "\u212b",
+			"\u0080", "\u0081", "\u00a0", "\u00bf", "\u00c0", "\u00e8"}[rng.Intn(25)] // ... and the first runes beyond ASCII, U+0080 onwards
 		pos := rng.Intn(len(def) + 1)
 		switch kind {
 		case 0: // non-ASCII letters in an alphabet
@@ -459,49 +545,43 @@ func c17Case(r *obs.Run, i int) {
 				return
 			}
 		case 6: // a well-formed involution that pairs a letter of the alphabet with a letter outside it
-			var x byte
-			for tries := 0; tries < 200; tries++ {
-				x = byte(33 + rng.Intn(94))
-				lo, up := x, x
-				if isUpper(x) {
-					lo = x + 32
-				} else if isLower(x) {
-					up = x - 32
+			// outside letters: any of the 128 ASCII values that is no member — in a case-sensitive alphabet the other case of
+			// a member is one; so are the unprintable values and, for a pair with a member, the alphabet's own gap and
+			// ambiguity letters (the member's complement would be no letter of the alphabet whatever else that letter is)
+			member := func(c byte) bool {
+				if bytes.IndexByte(def, c) >= 0 {
+					return true
 				}
-				if bytes.IndexByte(def, x) < 0 && bytes.IndexByte(def, lo) < 0 && bytes.IndexByte(def, up) < 0 && alphabet.Letter(x) != gap && alphabet.Letter(x) != amb {
-					break
-				}
-				x = 0
+				return !cased && (isUpper(c) && bytes.IndexByte(def, c+32) >= 0 || isLower(c) && bytes.IndexByte(def, c-32) >= 0)
 			}
+			both := rng.Intn(2) == 0
 			a := def[rng.Intn(len(def))]
-			if x == 0 || alphabet.Letter(a) == gap || alphabet.Letter(a) == amb {
+			draw := func(not int) (byte, bool) {
+				for tries := 0; tries < 200; tries++ {
+					c := byte(rng.Intn(128))
+					if rng.Intn(2) == 0 {
+						c = []byte{byte(gap), byte(amb), 0, 1, 9, 10, 31, ' ', 127, a ^ 32, def[rng.Intn(len(def))] ^ 32}[rng.Intn(11)]
+					}
+					if member(c) || int(c) == not || both && (alphabet.Letter(c) == gap || alphabet.Letter(c) == amb) {
+						continue
+					}
+					return c, true
+				}
+				return 0, false
+			}
+			x, found := draw(-1)
+			if !found {
 				return
 			}
-			if rng.Intn(2) == 0 {
+			if both {
 				// ... or pairs two letters with each other that are both outside it (next to a pair inside it)
-				outside := func(c byte) bool {
-					lo, up := c, c
-					if isUpper(c) {
-						lo = c + 32
-					} else if isLower(c) {
-						up = c - 32
-					}
-					return bytes.IndexByte(def, c) < 0 && bytes.IndexByte(def, lo) < 0 && bytes.IndexByte(def, up) < 0 && alphabet.Letter(c) != gap && alphabet.Letter(c) != amb
-				}
-				var y byte
-				for tries := 0; tries < 200; tries++ {
-					y = byte(33 + rng.Intn(94))
-					if y != x && outside(y) && !(isUpper(x) && y == x+32) && !(isLower(x) && y == x-32) {
-						break
-					}
-					y = 0
-				}
-				if y == 0 {
+				y, found := draw(int(x))
+				if !found || isUpper(x) && y == x+32 || isLower(x) && y == x-32 {
 					return
 				}
 				b := def[rng.Intn(len(def))]
 				ps, pc := string([]byte{x, y}), string([]byte{y, x})
-				if b != a && alphabet.Letter(b) != gap && alphabet.Letter(b) != amb && !(cased == !alphabet.CaseSensitive && (a^b) == 32) {
+				if b != a && alphabet.Letter(a) != gap && alphabet.Letter(a) != amb && alphabet.Letter(b) != gap && alphabet.Letter(b) != amb && !(cased == !alphabet.CaseSensitive && (a^b) == 32) {
 					ps, pc = string([]byte{a, b, x, y}), string([]byte{b, a, y, x})
 				}
 				w = c17w{"invalid", map[string]string{"letters": string(def), "pair_s": ps, "pair_c": pc}, nil, "NewComplementor with a pairing between two letters outside the alphabet"}
@@ -517,6 +597,9 @@ func c17Case(r *obs.Run, i int) {
 					return
 				}
 				r.Count("pairings_between_outside_letters_refused", 1)
+				if cased && ((isUpper(x) || isLower(x)) && member(x^32) || (isUpper(y) || isLower(y)) && member(y^32)) {
+					r.Count("pairings_between_outside_letters_refused_other_case_of_a_member", 1)
+				}
 				break
 			}
 			ps, pc := string([]byte{a, x}), string([]byte{x, a})
@@ -531,6 +614,14 @@ func c17Case(r *obs.Run, i int) {
 				cl, ok := comp.Complement(alphabet.Letter(a))
 				r.Violate("constructor-accepts-invalid", fmt.Sprintf("NewComplementor(%q) accepted the pairing %q<->%q: the complement of the valid letter %q is %q (ok=%v), which is not a letter of the alphabet (IsValid=%v)", def, a, x, a, cl, ok, comp.IsValid(cl)), w)
 				return
+			}
+			switch {
+			case alphabet.Letter(x) == gap || alphabet.Letter(x) == amb || alphabet.Letter(a) == gap || alphabet.Letter(a) == amb:
+				r.Count("pairings_leaving_the_alphabet_refused_gap_or_ambiguous_letter", 1)
+			case x < 33 || x == 127:
+				r.Count("pairings_leaving_the_alphabet_refused_unprintable_letter", 1)
+			case cased && (isUpper(x) || isLower(x)) && member(x^32):
+				r.Count("pairings_leaving_the_alphabet_refused_other_case_of_a_member", 1)
 			}
 		case 3: // length mismatch
 			s := string(def)
